@@ -6,24 +6,19 @@
 package main
 
 import (
-	"bytes"
 	"flag"
 	"fmt"
 	"go/ast"
 	"go/parser"
-	"go/printer"
 	"go/token"
 	"os"
 	"path/filepath"
 	"strings"
 )
 
+// src: the node in the normal form of astnorm_gen.go (function-local identifiers under canonical names)
 func src(fs *token.FileSet, n ast.Node) string {
-	var b bytes.Buffer
-	if err := printer.Fprint(&b, fs, n); err != nil {
-		die("cannot print node: %v", err)
-	}
-	return strings.Join(strings.Fields(b.String()), " ")
+	return CanonPrint(fs, n)
 }
 
 // transformFacts: the function literal handed to utils.TransformWithContext inside method `name` of
@@ -53,6 +48,20 @@ func transformFacts(fs *token.FileSet, f *ast.File, name string) (skips, fields 
 	if lit == nil {
 		die("%s: no function literal passed to TransformWithContext", name)
 	}
+	// the named results of the callback by position: (change, skip, err)
+	var ipcObj, skipObj *ast.Object
+	if rs := lit.Type.Results; rs != nil {
+		var names []*ast.Ident
+		for _, f := range rs.List {
+			names = append(names, f.Names...)
+		}
+		if len(names) == 3 {
+			ipcObj, skipObj = names[0].Obj, names[1].Obj
+		}
+	}
+	if ipcObj == nil || skipObj == nil {
+		die("%s: the transform callback does not have the three named results (change, skip, err)", name)
+	}
 	isSkip := func(st ast.Stmt) bool {
 		as, ok := st.(*ast.AssignStmt)
 		if !ok || len(as.Lhs) != 1 || len(as.Rhs) != 1 {
@@ -60,7 +69,7 @@ func transformFacts(fs *token.FileSet, f *ast.File, name string) (skips, fields 
 		}
 		l, ok1 := as.Lhs[0].(*ast.Ident)
 		r, ok2 := as.Rhs[0].(*ast.Ident)
-		return ok1 && ok2 && l.Name == "skip" && r.Name == "true"
+		return ok1 && ok2 && l.Obj == skipObj && r.Name == "true"
 	}
 	var walk func(stmts []ast.Stmt, guard string)
 	walk = func(stmts []ast.Stmt, guard string) {
@@ -72,7 +81,7 @@ func transformFacts(fs *token.FileSet, f *ast.File, name string) (skips, fields 
 			case *ast.AssignStmt:
 				for _, l := range t.Lhs {
 					if se, ok := l.(*ast.SelectorExpr); ok {
-						if id, ok := se.X.(*ast.Ident); ok && id.Name == "ipc" {
+						if id, ok := se.X.(*ast.Ident); ok && id.Obj == ipcObj {
 							fields = append(fields, se.Sel.Name)
 						}
 					}
@@ -107,6 +116,81 @@ func transformFacts(fs *token.FileSet, f *ast.File, name string) (skips, fields 
 	return
 }
 
+// startIdLiteral: the value the constructor puts into the field nextFreeId when the bucket holds none — the
+// initial value of the variable that the composite literal `IdCounter{… nextFreeId: x …}` reads (an integer
+// literal, possibly behind a conversion, or a constant of the same file declared with one)
+func startIdLiteral(nic *ast.FuncDecl) string {
+	var fieldVar *ast.Object
+	ast.Inspect(nic.Body, func(n ast.Node) bool {
+		cl, ok := n.(*ast.CompositeLit)
+		if !ok {
+			return true
+		}
+		if t, ok := cl.Type.(*ast.Ident); !ok || t.Name != "IdCounter" {
+			return true
+		}
+		for _, e := range cl.Elts {
+			if kv, ok := e.(*ast.KeyValueExpr); ok {
+				if k, ok := kv.Key.(*ast.Ident); ok && k.Name == "nextFreeId" {
+					if v, ok := kv.Value.(*ast.Ident); ok {
+						fieldVar = v.Obj
+					}
+				}
+			}
+		}
+		return true
+	})
+	if fieldVar == nil {
+		return ""
+	}
+	var init ast.Expr
+	ast.Inspect(nic.Body, func(n ast.Node) bool {
+		switch x := n.(type) {
+		case *ast.ValueSpec:
+			for i, nm := range x.Names {
+				if nm.Obj == fieldVar && i < len(x.Values) && init == nil {
+					init = x.Values[i]
+				}
+			}
+		case *ast.AssignStmt:
+			if x.Tok == token.DEFINE {
+				for i, l := range x.Lhs {
+					if id, ok := l.(*ast.Ident); ok && id.Obj == fieldVar && i < len(x.Rhs) && init == nil {
+						init = x.Rhs[i]
+					}
+				}
+			}
+		}
+		return true
+	})
+	for {
+		call, ok := init.(*ast.CallExpr)
+		if !ok || len(call.Args) != 1 {
+			break
+		}
+		init = call.Args[0]
+	}
+	switch x := init.(type) {
+	case *ast.BasicLit:
+		if x.Kind == token.INT {
+			return x.Value
+		}
+	case *ast.Ident:
+		if x.Obj != nil && x.Obj.Kind == ast.Con {
+			if vs, ok := x.Obj.Decl.(*ast.ValueSpec); ok {
+				for i, nm := range vs.Names {
+					if nm.Name == x.Name && i < len(vs.Values) {
+						if bl, ok := vs.Values[i].(*ast.BasicLit); ok && bl.Kind == token.INT {
+							return bl.Value
+						}
+					}
+				}
+			}
+		}
+	}
+	return ""
+}
+
 func die(f string, a ...any) {
 	fmt.Fprintf(os.Stderr, "facts_c10: "+f+"\n", a...)
 	os.Exit(1)
@@ -118,6 +202,7 @@ func parse(path string) (*token.FileSet, *ast.File) {
 	if err != nil {
 		die("cannot parse %s: %v", path, err)
 	}
+	NormalizeFile(fs, f, AllNorm) // behaviour-preserving normal form, see astnorm_gen.go
 	return fs, f
 }
 
@@ -258,20 +343,7 @@ func main() {
 	nic := funcDecl(cf, "NewIdCounter")
 	first := ""
 	if nic != nil {
-		ast.Inspect(nic.Body, func(n ast.Node) bool {
-			as, ok := n.(*ast.AssignStmt)
-			if !ok || len(as.Lhs) != 1 || len(as.Rhs) != 1 || as.Tok != token.DEFINE {
-				return true
-			}
-			if id, ok := as.Lhs[0].(*ast.Ident); ok && id.Name == "nextFreeId" {
-				if c, ok := as.Rhs[0].(*ast.CallExpr); ok && len(c.Args) == 1 {
-					if bl, ok := c.Args[0].(*ast.BasicLit); ok && bl.Kind == token.INT {
-						first = bl.Value
-					}
-				}
-			}
-			return true
-		})
+		first = startIdLiteral(nic)
 	}
 	if first == "" {
 		die("initial nextFreeId literal not found in NewIdCounter")
@@ -311,7 +383,7 @@ func main() {
 		}
 		rangeOver = src(dfs, rs.X)
 		if k, ok := rs.Key.(*ast.Ident); ok {
-			rangeOver = k.Name + " of " + rangeOver
+			rangeOver = src(dfs, k) + " of " + rangeOver
 		}
 		for _, st := range rs.Body.List {
 			if is, ok := st.(*ast.IfStmt); ok {
